@@ -37,7 +37,7 @@ MANIFEST = {
                   'functions, reuse of the datastore atomicity analyses, namespace-root dataflow '
                   'in the designer policies, encode/decode pairing at every KeyValue.ns site'
                   '; keyed fill events of the merge dictionary (loops or dict comprehensions); scenario evaluation of the value-type dispatch; provenance of the forwarded algorithm delta (no filtering); shared C04.R1/R4'
-                  '; presence-vs-truthiness lint for trial ids in metadata helpers'),
+                  '; presence-vs-truthiness lint for trial ids in metadata helpers; finite-model interpretation of Namespace.encode and _parse (string interpreter) over 170 component tuples: _parse(encode(t)) == t'),
     'level_text': (
         'Static: the namespace encoding escapes everything it must to be injective, metadata '
         'merges upsert by (namespace, key) with new-over-old order, failed updates are atomic '
@@ -155,6 +155,7 @@ def r1_codec(ctx) -> None:
             "like an escaped separator — e.g. ('a\\\\', 'b') and ('a:b',) both encode to ':a\\\\:b', so "
             'two distinct namespaces collide and decode(encode(ns)) != ns',
             construct='escape-table', func=ns.qualname)
+  _r1_codec_model(ctx, ns, cmod, enc, sep, keys)
   # decode strips at most one leading separator
   mod = ctx.index.need_module(COMMON)
   parse = mod.functions.get('_parse')
@@ -172,6 +173,73 @@ def r1_codec(ctx) -> None:
             f'`{unparse(bad, limit=60) if bad else ""}` removes every leading separator: namespaces whose first '
             "components are empty (('', 'a') encodes to '::a') decode to a different namespace",
             construct=bad, func=parse.qualname)
+
+
+def _r1_codec_model(ctx, ns, cmod, enc, sep: str, keys: Dict[str, str]) -> None:
+  """Finite model of the codec: `encode` and `_parse` are interpreted on every tuple of up to two (some of three)
+  components over {'', 'a', sep, 'a'+sep, sep+'a', sep+sep, 'a'+sep+'b'} (plus components with the escape character when
+  the table escapes it); `_parse(encode(t)) == t` must hold for each.  Components containing an escape character the
+  table does not escape are left out here: they are what the completeness obligation above reports."""
+  import itertools as _it
+  from vzstatic import pathcond
+  parse = cmod.functions.get('_parse')
+  if parse is None:
+    raise AnalysisError('common._parse not found')
+  base: Dict[str, object] = {}
+  for st in cmod.tree.body:
+    if isinstance(st, ast.Assign) and len(st.targets) == 1 and isinstance(st.targets[0], ast.Name):
+      try:
+        base[st.targets[0].id] = pathcond.neval(st.value, dict(base))
+      except pathcond.NoValue:
+        pass
+  cls_env = dict(base)
+  for k, v in ns.assigns.items():
+    try:
+      val = pathcond.neval(v, dict(cls_env))
+    except pathcond.NoValue:
+      continue
+    for owner in ('self', 'cls', ns.name):
+      cls_env[f'{owner}.{k}'] = val
+    cls_env[k] = val
+  esc = sorted({v[0] for v in keys.values() if v and v[0] != sep})
+  comps = ['', 'a', sep, 'a' + sep, sep + 'a', sep + sep, 'a' + sep + 'b']
+  for e_ in esc:
+    if e_ in keys:
+      comps += [e_, 'a' + e_, e_ + sep, e_ + e_, sep + e_]
+  tuples = [()] + [(a,) for a in comps] + [(a, b) for a in comps for b in comps] + \
+      [(a, b, c) for a in comps[:4] for b in comps[:4] for c in comps[:4]]
+  self_tuple = next((unparse(x, 0) for x in ast.walk(enc.node) if isinstance(x, ast.Attribute) and isinstance(x.value, ast.Name)
+                     and x.value.id == 'self' and 'tuple' in x.attr), 'self._as_tuple')
+  helpers = {f.name: f.node for f in cmod.functions.values()}
+  helpers.update({m.name: m.node for m in ns.methods.values()})
+  bad = None
+  for t in tuples:
+    env = dict(cls_env)
+    env[self_tuple] = tuple(t)
+    env['__callhook__'] = pathcond.method_hook(helpers)
+    try:
+      code = pathcond.run_concrete(enc.node, env)
+      env2 = dict(base)
+      env2[parse.params[0]] = code
+      env2['__callhook__'] = pathcond.method_hook(helpers)
+      back = pathcond.run_concrete(parse.node, env2)
+    except pathcond.LookupFailed as e:
+      bad = (t, f'IndexError/KeyError at {e}')
+      break
+    except pathcond.Raised as e:
+      bad = (t, f'raises {e}')
+      break
+    except pathcond.NoValue as e:
+      raise AnalysisError(f'Namespace codec: outside the finite model ({e})')
+    if not isinstance(code, str):
+      raise AnalysisError('Namespace.encode does not evaluate to a string on the finite model')
+    if tuple(back) if isinstance(back, (list, tuple)) else back != tuple(t):
+      if (tuple(back) if isinstance(back, (list, tuple)) else back) != tuple(t):
+        bad = (t, f'{code!r} -> {back!r}')
+        break
+  ctx.check(bad is None, 'R1', 'codec round trip on the finite component model', parse.node,
+            f'_parse(encode(t)) == t for {len(tuples)} component tuples over {comps!r}',
+            f'namespace {bad[0]!r} does not survive the round trip: {bad[1]}' if bad else '', construct='codec-model', func=parse.qualname)
 
 
 # ----------------------------------------------------------------------- R2
